@@ -130,3 +130,22 @@ U(id="C04.check", props=["C04", "C02"], file="xz.rs",
   harnesses=["c04_checksum_verify_crc32", "c04_checksum_verify_crc64", "c04_checksum_verify_sha256", "c04_checksum_verify_none"],
   stubs=[], functions=[("src/xz.rs", "verify", "ChecksumCalculator"), ("src/xz.rs", "update", "ChecksumCalculator"), ("src/xz.rs", "new", "ChecksumCalculator")],
   contract="for every data, every split of the updates and every expected field: verify <=> expected equals check_fn(data) byte for byte with the exact field length")
+
+PAYLOAD_LZMA_W = ["payload layer: LZMAWriter::new -> zeroed encoder + real RangeEncoder; LZEncoder::fill_window -> accepts all bytes (ghost count); LZMAEncoder::encode_for_lzma1 -> Ok(()); LZMAWriter::finish -> emits 1..4 bytes (the real LZMAWriter::write loop and size prechecks run on these)"]
+U(id="C02.lzip.split", props=["C02", "C18", "C03", "C07"], file="lzip/writer.rs", extra_files=["lzip.rs", "enc/lzma_writer.rs", "enc/lzma2_writer.rs"],
+  harnesses=["c02_lzip_members_e1", "c02_lzip_members_e4", "c02_lzip_members_unlimited", "c07_lzip_two_writes"],
+  contract_stubs=PAYLOAD_LZMA_W,
+  functions=[("src/lzip/writer.rs", "write", "Write for LZIPWriter"), ("src/lzip/writer.rs", "new", "LZIPWriter"), ("src/lzip/writer.rs", "start_new_member"),
+             ("src/lzip/writer.rs", "finish_current_member"), ("src/lzip/writer.rs", "finish", "LZIPWriter"), ("src/lzip/writer.rs", "should_finish_member"),
+             ("src/enc/lzma_writer.rs", "write", "Write for LZMAWriter")],
+  contract="for any n<=9000 bytes written in one call (or split in two calls with an empty write between) then finish: members partition the input in order, each <= max(member_size,dict) and full except the last; each member = LZIP header(dict byte) | payload | crc32(member data) | data size | member size=6+payload+20")
+
+for arch, f, hs in [("arm", "arm.rs", ["c11_bcj_arm_group", "c11_bcj_arm_short"]), ("thumb", "arm.rs", ["c11_bcj_thumb_group", "c11_bcj_thumb_short"]),
+                    ("arm64", "arm.rs", ["c11_bcj_arm64_group", "c11_bcj_arm64_short"]), ("ppc", "ppc.rs", ["c11_bcj_ppc_group", "c11_bcj_ppc_short"]),
+                    ("sparc", "sparc.rs", ["c11_bcj_sparc_group", "c11_bcj_sparc_short"]), ("x86", "x86.rs", ["c11_bcj_x86_group", "c11_bcj_x86_short"]),
+                    ("ia64", "ia64.rs", ["c11_bcj_ia64_group", "c11_bcj_ia64_short"]), ("riscv", "riscv.rs", ["c11_bcj_riscv_group", "c11_bcj_riscv_two"])]:
+    fn = {"arm": "arm_code", "thumb": "arm_thumb_code", "arm64": "arm64_code", "ppc": "ppc_code", "sparc": "sparc_code", "x86": "x86_code", "ia64": "ia64_code", "riscv": "riscv_code"}[arch]
+    U(id="C11.group." + arch, props=["C11", "C06", "C07"], file="filter/bcj/" + f, extra_files=["filter/bcj.rs"], harnesses=hs, stubs=[],
+      kind="bounded", bound="buffers of 3..19 arbitrary bytes (1-3 instruction groups) at every aligned stream position < 2^62",
+      functions=[("src/filter/bcj/" + f, fn)],
+      contract="forall bytes, forall aligned pos < 2^62: no panic; encoder and decoder convert the same prefix r, pos += r, bytes >= r untouched; decode(encode(x)) = x; only a tail shorter than one group stays unconverted")
